@@ -51,7 +51,7 @@ def generate(ctx):
     tries = 0
     while len(cases) < n and tries < n * 30:
         tries += 1
-        kind = ["cnf", "ll1", "rd"][i % 3]
+        kind = ["cnf", "ll1", "rd", "fcfg"][i % 4]
         prof = rng.choice(["plain", "eps", "unit", "recursive", "cnf", "plain"]) if kind != "rd" else rng.choice(["plain", "recursive", "cnf"])
         g = cfglib.rand_cfg(rng, profile=prof, max_vars=3, max_prods=6, max_body=3)
         if kind == "rd" and not _rd_ok(g):
@@ -113,6 +113,14 @@ def impl(case):
         out["nf"] = cfglib.extract_cfg(g.to_normal_form())
     if op == "ll1_tree":
         out["ll1"] = bool(LLOneParser(g).is_llone_parsable())
+    fcfg = None
+    if op == "fcfg_tree":
+        from pyformlang.cfg import Variable
+        from pyformlang.fcfg import FCFG, FeatureProduction, FeatureStructure
+        spec = case["g"]
+        prods = [FeatureProduction(Variable(h), [Variable(v) if k == "V" else Terminal(v) for k, v in b], FeatureStructure(), [FeatureStructure() for _ in b])
+                 for h, b in spec["prods"]]
+        fcfg = FCFG({Variable(v) for v in spec["vars"]}, {Terminal(t) for t in spec["terms"]}, Variable(spec["start"]), set(prods))
     ll1_parser = LLOneParser(g)              # one parser object serves all the words of the case
     rd_parser = RecursiveDecentParser(g)
     for w in _words(case):
@@ -120,6 +128,8 @@ def impl(case):
         try:
             if op == "cnf_tree":
                 t = g.get_cnf_parse_tree(word)
+            elif op == "fcfg_tree":
+                t = fcfg.get_parse_tree(word)
             elif op == "ll1_tree":
                 t = ll1_parser.get_llone_parse_tree(word)
             else:
@@ -172,7 +182,8 @@ class _Ext:
             return
         ll1, items = mv
         ws = _words(case)
-        documented = {"cnf_tree": "DerivationDoesNotExist", "ll1_tree": "NotParsableException", "rd_tree": "NotParsableException"}[op]
+        documented = {"cnf_tree": "DerivationDoesNotExist", "ll1_tree": "NotParsableException", "rd_tree": "NotParsableException",
+                      "fcfg_tree": "NotParsableException"}[op]
         for w, r, (member, chk) in zip(ws, obs["results"], items):
             ctx.count(1)
             if "error" in r:
